@@ -262,6 +262,10 @@ def features(rec) -> list:
                 if isinstance(s_, list) and len(s_) == 2 and s_[0] in ("list", "str") and isinstance(s_[1], (list, str)):
                     if any(len(s_[1]) < n for n in need):
                         out.add("utuple-short-input")
+                    # a text met where a COLLECTION of variadic tuples is expected is iterated character by character: every
+                    # one-character string is itself a too-short input of the inner tuple (same re-use of items, F03)
+                    if s_[0] == "str" and len(s_[1]) >= 1 and T[0] not in ("utuple", "ustar") and any(n > 1 for n in need):
+                        out.add("utuple-short-input")
     return sorted(out)
 
 
